@@ -466,10 +466,8 @@ impl<'a> Interp<'a> {
                         if *y == 0 {
                             return Err(Stop::Trap("div-by-zero"));
                         }
-                        if t.signed() && *x == t.min_val() && *y == -1 {
-                            return Err(Stop::Trap("min_div_neg1"));
-                        }
-                        // truncating division
+                        // truncating division; MIN / -1 does not fit and wraps like every other
+                        // operation (the i128 quotient is wrapped to the width below)
                         x / y
                     }
                     BinOp::Rem => {
